@@ -99,6 +99,12 @@ class FnTranslator:
             if not parts:
                 raise Unsupported("empty tuple")
             return "(" + ", ".join(parts) + ")", flags
+        if isinstance(e, ast.Call) and isinstance(e.func, ast.Attribute) and e.func.attr == "count" \
+                and len(e.args) == 1 and isinstance(e.args[0], ast.Constant) and e.args[0].value == "1" \
+                and isinstance(e.func.value, ast.Call) and ast.unparse(e.func.value.func) == "bin" \
+                and len(e.func.value.args) == 1 and not e.keywords:
+            t, f = self.expr(e.func.value.args[0], env)              # bin(E).count('1')
+            return f"(pyBinCountOnes {t})", f
         if isinstance(e, ast.Call):
             fname = ast.unparse(e.func)
             if e.keywords:
@@ -182,9 +188,6 @@ class FnTranslator:
                     raise Unsupported("Wavefunction call shape")
                 br = "[" + ", ".join('"%s"' % b for b in kw["broken"]) + "]"
                 return self.guard(f, self.ret(f"({a}, {br})"))
-            # count_bits: the reference branch is bin(int(string)).count('1')
-            if ast.unparse(s.value) == "bin(int(string)).count('1')":
-                return self.ret("pyBinCountOnes string")
             t, f = self.expr(s.value, env)
             return self.guard(f, self.ret(t))
         if isinstance(s, ast.Raise):
